@@ -45,6 +45,14 @@ func realise(v interface{}, key, parent string, unit float64) interface{} {
 		}
 		return t / unit
 	case map[string]interface{}:
+		if len(t) == 3 { // {"n":a,"d":b,"e":k} -> a/b * 2^k (tiny or huge scalings that do not fit the 32-bit case integers)
+			n, okn := t["n"].(float64)
+			d, okd := t["d"].(float64)
+			e, oke := t["e"].(float64)
+			if okn && okd && oke && d != 0 {
+				return n / d * math.Pow(2, e)
+			}
+		}
 		if len(t) == 2 {
 			n, okn := t["n"]
 			d, okd := t["d"]
@@ -105,6 +113,8 @@ var listKeys = map[string]bool{
 
 type projector struct {
 	unit     float64
+	vscale   float64 // > 0: the criteria values of the request were multiplied by it (case.vscale); criteria values and
+	// utility values of the response and of the recorded states are divided by it again before projection
 	inexact  int
 	overflow int
 	mode     string // "exact" (round, count inexact) or "interval" (emit lo/hi)
@@ -148,13 +158,23 @@ func (p *projector) proj(v interface{}, key string) interface{} {
 		}
 		return J{"isnull": true}
 	case float64:
+		if p.vscale > 0 && key == "value" {
+			t /= p.vscale
+		}
 		return p.num(t, key)
 	case json.Number:
 		f, _ := t.Float64()
+		if p.vscale > 0 && key == "value" {
+			f /= p.vscale
+		}
 		return p.num(f, key)
 	case map[string]interface{}:
 		out := make(J, len(t))
 		for k, x := range t {
+			if f, ok := x.(float64); ok && p.vscale > 0 && key == "criteria" {
+				out[k] = p.num(f/p.vscale, k)
+				continue
+			}
 			out[k] = p.proj(x, k)
 		}
 		return out
